@@ -15,9 +15,20 @@ import (
 // Arbitrary Go values for Geometry.Coordinates, in prefix token form:
 //
 //	n | f <bits> | a <k> v.. | s <hex or -> | t | u | i <int> | o <k> (<keyhex or -> v)..
-//	F1 <k> <bits>.. | F2 <k> (<k> <bits>..).. | PT <bits> <bits> | jn <text hex or ->   (json.Number)
-func parseGoVal(p *vproto.Parser) interface{} {
+//	F1 <k> <bits>.. | F2 <k> (<k> <bits>..).. | PT <bits> <bits> | jn <text hex or ->   (json.Number) | ref <k>   (the k-th enclosing array itself: a CYCLIC value)
+func parseGoVal(p *vproto.Parser) interface{} { return parseGoValIn(p, nil) }
+
+// parseGoValIn: `enclosing` is the stack of arrays being built around the current position
+// (innermost last). `ref k` is the k-th enclosing array ITSELF (k = 0: the innermost), which makes
+// the value cyclic: `a 1 ref 0` is the slice x with x[0] = x.
+func parseGoValIn(p *vproto.Parser, enclosing [][]interface{}) interface{} {
 	switch tag := p.Next(); tag {
+	case "ref":
+		k := p.Int()
+		if k < 0 || k >= len(enclosing) {
+			return nil
+		}
+		return enclosing[len(enclosing)-1-k]
 	case "n":
 		return nil
 	case "f":
@@ -26,7 +37,7 @@ func parseGoVal(p *vproto.Parser) interface{} {
 		k := p.Int()
 		a := make([]interface{}, k)
 		for i := range a {
-			a[i] = parseGoVal(p)
+			a[i] = parseGoValIn(p, append(enclosing, a))
 		}
 		return a
 	case "s":
@@ -42,7 +53,7 @@ func parseGoVal(p *vproto.Parser) interface{} {
 		m := make(map[string]interface{}, k)
 		for i := 0; i < k; i++ {
 			key := hexStr(p.Next())
-			m[key] = parseGoVal(p)
+			m[key] = parseGoValIn(p, enclosing)
 		}
 		return m
 	case "F1":
